@@ -10,7 +10,7 @@ every job stream and every reachable state, i.e. every interleaving of the two t
 advances, unless a hypothesis says otherwise:
 
 * full strength, both for the code as found and the repaired code:
-  `exactly_once`, `never_dropped`, `submitted_at_most_once`, `batch_shape`;
+  `exactly_once`, `never_dropped`, `submitted_at_most_once`, `batch_shape`, `no_deadlock`;
 * full strength for the repaired code (scan under the lock / decrement under the lock):
   `monitor_never_fails`, `count_exact`;
 * refuted on the model of the code as found (closed counter-example traces):
@@ -157,6 +157,14 @@ theorem count_exact (c : Cfg) (p : Params) (jobs : List Job) (s : State) (hwf : 
   obtain ⟨ha, hm⟩ := hq
   simp only [credit, ha, debt, pendingJobs] at hK ⊢
   rcases hm with (hm | hm) | hm <;> simp [hm] at hK <;> omega
+
+/-- **No deadlock.** In every reachable state some thread can take a step, unless the adding thread has
+made all its calls and no monitor thread is running (a thread waiting for the lock is never waiting
+for a thread that cannot move). Holds for both locking configurations. -/
+theorem no_deadlock (c : Cfg) (p : Params) (jobs : List Job) (s : State) (hwf : p.minSize ≤ p.maxSize)
+    (h : Reachable c p jobs s) :
+    stepS p s ≠ none ∨ stepM c p s ≠ none ∨ (s.ad.pc = .done ∧ monAlive s.mon = false) :=
+  no_deadlock_of_invA c p s (reachable_inv hwf h).1
 
 /-! ## refutations on the model of the code as found -/
 
